@@ -22,6 +22,7 @@ def dispatch (fam : String) : Option (List String → String → Option Res) :=
   | "calc" => some runCalc
   | "supply" => some runSupply
   | "nohalt" => some runNoHalt
+  | "escrow" => some runEscrow
   | "tally" => some runTally
   | "ratio" => some runRatio
   | "valset" => some runValset
